@@ -108,7 +108,7 @@ impl Scenario for SubScenario {
 		mask
 	}
 	fn setup(&self) -> SubState {
-		let shared = Arc::new(Shared {
+		let shared = Arc::new(Shared { rx_split: false,
 			sent: Default::default(),
 			send_calls: Default::default(),
 			fail_send_at: None,
@@ -570,7 +570,7 @@ impl Scenario for BackpressureScenario {
 		mask_bp
 	}
 	fn setup(&self) -> BpState {
-		let shared = Arc::new(Shared {
+		let shared = Arc::new(Shared { rx_split: false,
 			sent: Default::default(),
 			send_calls: Default::default(),
 			fail_send_at: None,
